@@ -239,7 +239,9 @@ ExLoop(s, env, st, d, n) ==
 Ex(s, env, st, inblock, d) ==
   CASE s.t = "expr" -> XR(Ev(s.e, env, st, s.ln, d), env)
     [] s.t = "let" ->
-         LET r == Ev(s.e, env, st, s.ln, d)
+         \* (a function literal bound by let is known by that name inside its own body: let f = fn(n) { ... f(n - 1) ... })
+         LET init == IF s.e.t = "fn" /\ s.e.n = "" THEN [s.e EXCEPT !.n = s.n] ELSE s.e
+             r == Ev(init, env, st, s.ln, d)
          IN IF r.s # "ok" THEN XR(r, env)
             ELSE [s |-> "ok", v |-> Null, st |-> NewCell(r.st, r.v),
                   env |-> Append(env, [n |-> s.n, c |-> NewCellId(r.st), g |-> ~InFn(env)])]
